@@ -278,7 +278,7 @@ impl<A: Z> DefBack for CDef<A> {
     const LABEL: &'static str = A::NAME;
     const IS_WRAPPER: bool = false;
     fn init(cfg: &DefCfg) -> Result<Self, c_int> {
-        let mut strm = Box::new(zs());
+        let mut strm = Box::new(zs_for::<A>());
         crate::guard::install_current(&mut strm);
         let rc = unsafe { A::deflateInit2(&mut *strm, cfg.level, 8, cfg.window_bits_arg(), cfg.mem_level, cfg.strategy) };
         if rc != Z_OK {
@@ -318,7 +318,7 @@ impl<A: Z> DefBack for CDef<A> {
         unsafe { A::deflateBound(&mut *self.strm, n as _) as u64 }
     }
     fn copy_swap(&mut self) -> c_int {
-        let mut dest = Box::new(zs());
+        let mut dest = Box::new(zs_for::<A>());
         let rc = unsafe { A::deflateCopy(&mut *dest, &mut *self.strm) };
         if rc != Z_OK {
             return rc;
